@@ -21,7 +21,7 @@ na = []
 for p in props:
     pid = p["id"]
     specs = report.RULES.get(pid)
-    if specs and pid not in NA:
+    if specs and pid in LEVEL and pid not in NA:
         checks.append({
             "property_id": pid,
             "quick_cmd": "/venv/bin/python check.py %s --tier quick" % pid,
